@@ -158,9 +158,57 @@ def check_generic(ns, trees, fi, res, case):
         res.nontrivial_case(["generic", trees, fi])
 
 
+SNAP_SRC = """
+def g(n):
+    for i in range(n):
+        y = i
+        yield y
+
+def f(x):
+    it = g(x)
+    next(it)
+    return it
+"""
+
+
+def check_record_is_snapshot(scratch, res):
+    """A record is delivered when the outermost call ends and contains the values taken during that
+    call: a generator started under the call and resumed after it returned must not add to it."""
+    import importlib.util
+    import os
+
+    from ptera import probing
+
+    path = os.path.join(scratch, "c07snap.py")
+    with open(path, "w") as fh:
+        fh.write(SNAP_SRC)
+    sp = importlib.util.spec_from_file_location("c07snap", path)
+    mod = importlib.util.module_from_spec(sp)
+    sp.loader.exec_module(mod)
+    for n in (1, 3, 5):
+        res.evaluations += 1
+        res.deciding += 1
+        recs = []
+        try:
+            with probing("f(x, g(y))", env=vars(mod), raw=True) as prb:
+                prb.subscribe(recs.append)
+                it = mod.f(n)
+                at_delivery = [{k: list(c.values) for k, c in r.items()} for r in recs]
+                list(it)
+                later = [{k: list(c.values) for k, c in r.items()} for r in recs]
+        except Exception as e:
+            res.violation({"snapshot": n}, "exception: " + common.fmt_exc(e))
+            continue
+        if at_delivery != [{"x": [n], "y": [0]}] or later != at_delivery:
+            res.violation({"snapshot": n}, {"what": "the record of f(x, g(y)) changed after it was delivered (a generator started under f was resumed after f returned)", "at_delivery": at_delivery, "later": later})
+        res.count("record_snapshot_checks")
+
+
 def run_shard(spec):
     res = ShardResult()
     scratch = spec["scratch"]
+    if spec["range"][0] == 0:
+        check_record_is_snapshot(scratch, res)
     s0, cnt = spec["range"]
     ns = None
     for i in range(s0, s0 + cnt):
